@@ -564,7 +564,7 @@ class Aa55WriteCommand(Aa55ProtocolCommand):
     """
 
     def __init__(self, register: int, value: int):
-        super().__init__(f"023905{register:04x}01{value:04x}", "02B9", register, value)
+        super().__init__(f"023905{register:04x}01{value & 0xffff:04x}", "02B9", register, value)
 
     def __repr__(self):
         return f'WRITE {self.value} to register {self.first_address} ({self.request.hex()})'
